@@ -159,9 +159,16 @@ class Check:
         self.violations = out
 
     def floor(self, rule, count, minimum, what):
-        self.floors.append({'rule': rule, 'count': count, 'floor': minimum,
-                            'what': what})
-        if count < minimum:
+        # ``minimum`` is the number of instances confirmed by hand on the
+        # pinned tree.  Merging duplicated code is a common, harmless
+        # refactoring, so the analysis only counts as broken when fewer than
+        # half of them (and at least one) are still found; the rules' own
+        # obligations, not the count, are what decides a property.
+        required = 0 if minimum <= 0 else max(1, (minimum + 1) // 2)
+        self.floors.append({'rule': rule, 'count': count,
+                            'confirmed_on_pinned_tree': minimum,
+                            'floor': required, 'what': what})
+        if count < required:
             # decided in finish(): a missing instance next to a violation is
             # reported as the violation; alone it is analysis-broken
             self.floor_errors.append(
